@@ -92,6 +92,28 @@ inline void AvoidHugeEntropyTables(const Geo &g, EncOpts *o) {
     if (len < 4) continue;
     for (size_t i = 0; i < at.nvals * at.nc && !big; ++i) { int32_t v; memcpy(&v, at.data.data() + i * 4, 4); if (v > (1 << 18) || v < -(1 << 18)) big = true; }
   }
+#if defined(__SANITIZE_ADDRESS__)
+  // Sanitizer builds only: the tex-coord portable predictor squares (2*pos_bits+uv_bits)-bit quantities in int64
+  // and overflows (signed overflow on both sides, results agree) from about 2*pos+uv > 50 bits. That is recorded as a
+  // known C02 finding (decoder-side UB on a valid stream) and kept out of the other properties' sanitizer slices.
+  {
+    bool has_uv = false, big_int_uv = false;
+    for (size_t a = 0; a < g.atts.size(); ++a) if (g.atts[a].type == draco::GeometryAttribute::TEX_COORD && g.atts[a].nc == 2) {
+      has_uv = true;
+      const Attr &at = g.atts[a];
+      if (at.dt != draco::DT_FLOAT32 && draco::DataTypeLength(at.dt) == 4) big_int_uv = true;
+    }
+    if (big_int_uv) {
+      // integer texture coordinates of up to 30 bits: keep the tex-coord predictor off (speed >= 4, not forced)
+      if (o->enc_speed < 4) { o->enc_speed = 4; if (o->dec_speed < 0) o->dec_speed = 4; }
+      for (auto &p : o->pred) if (p == draco::MESH_PREDICTION_TEX_COORDS_PORTABLE) p = -100;
+    }
+    if (has_uv) for (size_t a = 0; a < g.atts.size(); ++a) {
+      if ((g.atts[a].type == draco::GeometryAttribute::TEX_COORD || g.atts[a].type == draco::GeometryAttribute::POSITION) && o->qbits[a] > 16) o->qbits[a] = 16;
+      if (a < o->explicit_q.size() && o->explicit_q[a].bits > 16 && (g.atts[a].type == draco::GeometryAttribute::TEX_COORD || g.atts[a].type == draco::GeometryAttribute::POSITION)) o->explicit_q[a].bits = 16;
+    }
+  }
+#endif
   if (!big) return;
   if (o->enc_speed >= 0 && std::max(o->enc_speed, o->dec_speed) < 2) { o->enc_speed = std::max(o->enc_speed, 2); }
   for (auto &p : o->pred) if (p == draco::MESH_PREDICTION_CONSTRAINED_MULTI_PARALLELOGRAM) p = draco::MESH_PREDICTION_PARALLELOGRAM;
